@@ -159,6 +159,17 @@ func (pt *PolyformTexture) equal(other *PolyformTexture) bool {
 		return false
 	}
 
+	// Texture extensions (e.g. KHR_texture_transform) are written next to
+	// the texture reference, so they are part of the texture's value.
+	if len(pt.Extensions) != len(other.Extensions) {
+		return false
+	}
+	for i, ext := range pt.Extensions {
+		if !reflect.DeepEqual(ext, other.Extensions[i]) {
+			return false
+		}
+	}
+
 	if pt.Sampler == other.Sampler {
 		return true
 	} else if pt.Sampler == nil || other.Sampler == nil {
